@@ -33,4 +33,9 @@ theorem roundSig_nearest (p n sh : Nat) (h : ¬ bitLen n ≤ p) (hs : sh = bitLe
   split
   · rw [Nat.succ_mul]; omega
   · omega
+theorem intToFloat_exact (f : FloatTy) (v : Int) (h : v.natAbs < 2 ^ f.prec) : intToFloat f v = v := by
+  unfold intToFloat
+  rw [roundSig_exact _ _ h]
+  split <;> omega
+
 end Rlbox.CastLemmas
